@@ -7,6 +7,7 @@
 (b) ElemApplyTemplates pushes / pops its own mode only when it does not carry the built-in mark.
 (c) the node kind -> built-in rule table in ElemTemplateElement: element and fragment -> element rule, text / CDATA / attribute -> text rule,
     document -> root rule, every other kind -> none."""
+import itertools
 from ..build import AnalysisBroken
 from ..mast import Machine, Unsupported, walk, calls, callee, strip_casts, pp, CFG, switch_cases
 from ..facts import NS, short
@@ -264,3 +265,113 @@ def run_rule(res, facts, tier):
     if n_c < 1:
         raise AnalysisBroken('no node kind -> built-in rule switch found in ElemTemplateElement.cpp')
     return r
+
+
+# ------------------------------------------------------------------------------------------------------------------ C10-R13 / C01-R13: no match -> built-in rule, whoever asks
+def run_nomatch_rule(res, facts, tier, rid='C10-R13'):
+    """XSLT 1.0 5.8: the built-in rules are treated as if they were imported implicitly before the stylesheet, so they are what a node gets when no rule matches -
+    for xsl:apply-templates and for xsl:apply-imports alike.  ElemTemplateElement::findTemplateToTransformChild is interpreted for both instructions, every node kind,
+    and findTemplate answering a rule or nothing."""
+    from ..omach import OMachine, Obj, Vec, Fault
+    from ..mast import Unsupported
+    r = res.rule(rid, 'a node for which findTemplate finds no rule is processed by the built-in rule of its kind, for xsl:apply-templates and xsl:apply-imports alike: '
+                 'ElemTemplateElement::findTemplateToTransformChild interpreted for both instructions x element / fragment / text / CDATA / attribute / document / comment / '
+                 'processing instruction x (a rule matches, none does)', floor=30)
+    cands = [a for a in facts.asts('ElemTemplateElement::findTemplateToTransformChild', must=False) if a.get('body') is not None and len(a['params']) == 5]
+    if len(cands) != 1:
+        raise AnalysisBroken('ElemTemplateElement::findTemplateToTransformChild(5 parameters): %d bodies (the build uses the iterative engine)' % len(cands))
+    fn = cands[0]
+    T = {k: facts.enumconst.get(NS + 'XalanNode::' + k) for k in ('ELEMENT_NODE', 'DOCUMENT_FRAGMENT_NODE', 'TEXT_NODE', 'CDATA_SECTION_NODE', 'ATTRIBUTE_NODE', 'DOCUMENT_NODE',
+                                                                    'COMMENT_NODE', 'PROCESSING_INSTRUCTION_NODE')}
+    TOK = {k: facts.enumconst.get(NS + 'StylesheetConstructionContext::' + k) for k in ('ELEMNAME_APPLY_TEMPLATES', 'ELEMNAME_APPLY_IMPORTS')}
+    if None in T.values() or None in TOK.values():
+        raise AnalysisBroken('node type / element token constants not found')
+
+    class W:
+        construct_objects = False
+
+        def __init__(self):
+            self.facts = facts; self.depth = 0; self.calls = 0; self.max_calls = 2000
+            self.found = 0; self.token = 0; self.done = []
+
+        def tables(self, q):
+            return None
+
+        def glob(self, name):
+            return ('GLOBAL', name.split('::')[-1])
+
+        def allow(self, body, c):
+            return False
+
+        def destructor(self, o):
+            return None
+
+        def hook(self, m, c):
+            k = c['k']
+            n = c.get('n') or callee(c).split('::')[-1]
+            if k == 'MCall':
+                tgt = m.target_obj(c)
+                if n == 'getXSLToken':
+                    return self.token
+                if n == 'getStylesheet':
+                    return 'SHEET'
+                if n == 'getStylesheetRoot':
+                    return 'ROOT'
+                if tgt == 'ROOT' and n in ('getDefaultRule', 'getDefaultTextRule', 'getDefaultRootRule'):
+                    return {'getDefaultRule': 'ELEMENT-RULE', 'getDefaultTextRule': 'TEXT-RULE', 'getDefaultRootRule': 'ROOT-RULE'}[n]
+                if n == 'findTemplate':
+                    return self.found
+                if tgt == 'ECTX':
+                    if n == 'getCurrentTemplate':
+                        return 'CURRENT'
+                    if n == 'getCurrentMode':
+                        return 'MODE'
+                    if n == 'getTraceListeners':
+                        return 0
+                    if n == 'cloneToResultTree':
+                        self.done.append('text copied'); return 0
+                    if n == 'characters':
+                        self.done.append('value written'); return 0
+                    raise Unsupported('execution context method ' + n)
+                if tgt == 'NODE':
+                    if n == 'getNodeValue':
+                        return 'v'
+                    if n == 'getNodeType':
+                        return self.ntype
+                if isinstance(tgt, str) and n in ('length', 'c_str'):
+                    return len(tgt) if n == 'length' else tgt
+                if n == 'getLocator':
+                    return 0
+            if k == 'Call' and n == 'isNamespaceDeclaration':
+                return 0
+            if k == 'OpCall' and c.get('op') in ('*', '->') and len(c['args']) == 1:
+                return m.ev(c['args'][0])
+            return NotImplemented
+    w = W()
+    WANT = {'ELEMENT_NODE': 'ELEMENT-RULE', 'DOCUMENT_FRAGMENT_NODE': 'ELEMENT-RULE', 'DOCUMENT_NODE': 'ROOT-RULE', 'TEXT_NODE': 'text copied', 'CDATA_SECTION_NODE': 'text copied',
+            'ATTRIBUTE_NODE': 'value written', 'COMMENT_NODE': 'nothing', 'PROCESSING_INSTRUCTION_NODE': 'nothing'}
+    for tokname, kind, found in itertools.product(TOK, T, (0, 'MATCHED-RULE')):
+        w.token, w.found, w.done, w.calls, w.ntype = TOK[tokname], found, [], 0, T[kind]
+        this = Obj(NS + 'ElemTemplateElement', {})
+        site = '%s, %s, %s' % ('xsl:apply-imports' if tokname.endswith('IMPORTS') else 'xsl:apply-templates', kind.replace('_NODE', '').lower().replace('_', ' '),
+                               'a rule matches' if found else 'no rule matches')
+        try:
+            m = OMachine(w, {}, this)
+            m.fuel = 4000
+            ret = m.run_body(fn, ['ECTX', Obj('instr', {}), 0, 'NODE', T[kind]], this)
+        except Fault as f:
+            r.violation(site, 'the code misbehaves: %s' % f, common.file_line(fn)); continue
+        except Unsupported as u:
+            raise AnalysisBroken('findTemplateToTransformChild outside the interpreted subset (%s): %s' % (site, u))
+        got = ret if ret not in (0, None) else (w.done[0] if w.done else 'nothing')
+        want = 'MATCHED-RULE' if found else WANT[kind]
+        if got == want:
+            r.ok(site, str(got))
+        else:
+            r.violation('no matching rule: %s' % site if not found else site, 'the node is processed by %s, XSLT 1.0 5.8 requires %s' %
+                        (got if got != 'nothing' else 'nothing at all', want if want != 'nothing' else 'nothing'), common.file_line(fn))
+    return r
+
+
+def run_c01_nomatch_rule(res, facts, tier):
+    return run_nomatch_rule(res, facts, tier, 'C01-R13')
